@@ -31,6 +31,8 @@ Extra(r) == CASE r.fam = "trg" -> TrgOrdered(r.acc)
 
 Judge(r) ==
   IF r.verdict \notin {"ok", "err"} THEN "crash"
+  \* the same bytes decoded a second time, right away, on the same thread: a decoder is a function of its input
+  ELSE IF "again" \in DOMAIN r /\ r.again # 1 THEN "not-repeatable"
   ELSE IF r.fam = "pwbbase" THEN
        (IF (r.verdict = "ok") # SuppressionBaselineOk(r.wave) THEN "verdict"
         ELSE IF r.verdict = "ok" /\ r.value # SuppressionBaseline(r.wave) THEN "acc" ELSE "fine")
